@@ -341,3 +341,68 @@ _c07_base = contracts
 
 def contracts():
     return _c07_base() + [update_deps_iteration_contract()]
+
+
+# ---------------------------------------------------------------------------------------------
+# _sync_caller — the wrapper installed as watcher callback for a dependent method
+# ---------------------------------------------------------------------------------------------
+def sync_caller_contract(with_callback):
+    """`_sync_caller(*events, what, changed, callback, function)`: the re-binding callback (when there
+    is one) runs first — so the watchers follow the newly attached object even when the method raises or
+    the event is skipped —, then the method runs exactly once iff the event is not skipped."""
+    def configure(I):
+        def skip(I, st, fv, args, kwargs, ctx):
+            st.ghost["order"] = st.ghost.get("order", []) + ["skip?"]
+            b = I.U.fresh_bool("skipped")
+            st.ghost["skipped"] = b
+            return [(st, BoolV(b))]
+        I.contracts["_skip_event"] = skip
+
+        def cb(I, st, fv, args, kwargs, ctx):
+            st.ghost["order"] = st.ghost.get("order", []) + ["callback"]
+            st.ghost["cb_args"] = list(args)
+            return [(st, Conc(None))]
+        I.lib["__CALLBACK__"] = cb
+
+        def fn(I, st, fv, args, kwargs, ctx):
+            st.ghost["order"] = st.ghost.get("order", []) + ["method"]
+            q = st.fork()
+            return [(st, Sym(I.U.fresh("method_result"))), (q, Raise("$User", origin="method"))]
+        I.lib["__METHOD__"] = fn
+
+    def setup(I, st):
+        m = I.src.modules[MOD]
+        fd = m.functions["_sync_caller"]
+        fv = FuncV("repo", module=m, cls=None, node=fd, self=None, qual="_sync_caller")
+        ev = Sym(I.U.fresh("event"))
+        kw = {"what": Conc("value"), "changed": Sym(I.U.fresh("changed")),
+              "callback": FuncV("builtin", name="__CALLBACK__", self=None) if with_callback else Conc(None),
+              "function": FuncV("builtin", name="__METHOD__", self=None)}
+        return fv, [ev], kw, {"event": ev, "symbols": {}}
+
+    def post(I, info, st, oc):
+        order = st.ghost.get("order", [])
+        out = []
+        if with_callback:
+            out.append(("the re-binding callback runs exactly once, before the skip test and before the method — also when the method raises",
+                        z3.BoolVal(order.count("callback") == 1 and order[0] == "callback")))
+            a = st.ghost.get("cb_args", [])
+            out.append(("the callback receives the events", z3.BoolVal(len(a) == 1 and a[0] is info["event"])))
+        else:
+            out.append(("no callback: none is invoked", z3.BoolVal("callback" not in order)))
+        sk = st.ghost.get("skipped")
+        ran = order.count("method")
+        out.append(("the method runs exactly once iff the event is not skipped",
+                    z3.BoolVal(False) if sk is None else z3.And(z3.Implies(sk, z3.BoolVal(ran == 0)), z3.Implies(z3.Not(sk), z3.BoolVal(ran == 1)))))
+        if isinstance(oc, Raise):
+            out.append(("only the method's own exception escapes", z3.BoolVal(oc.cls == "$User")))
+        return out
+    return FunctionContract("%s:_sync_caller" % MOD, PROP, setup, post, configure=configure,
+                            name="_sync_caller[%s]" % ("with re-binding callback" if with_callback else "no callback"))
+
+
+_c07_base2 = contracts
+
+
+def contracts():
+    return _c07_base2() + [sync_caller_contract(True), sync_caller_contract(False)]
